@@ -34,7 +34,14 @@ def run(model=None, pkg_path=None):
         res = None
         # the module is looked at twice: right after the first converter was created, and after the package has been
         # USED (several converters, messages parsed and written, objects compared and changed) under python -O
-        for stage, extra in (("fresh", {}), ("used", {"VERIF_IMAGE_STAGE": "used", "PYTHONOPTIMIZE": "1", "PYTHONHASHSEED": "5"})):
+        # ... and once as a VENDORED copy: the package directory copied under another parent package, imported as
+        # bundled_libs.lsprotocol while the original top-level lsprotocol stays importable (what it refers to must be itself)
+        vend = os.path.join(work, "vendor")
+        os.makedirs(os.path.join(vend, "bundled_libs"))
+        open(os.path.join(vend, "bundled_libs", "__init__.py"), "w").close()
+        shutil.copytree(os.path.join(pkg_path, "lsprotocol"), os.path.join(vend, "bundled_libs", "lsprotocol"), ignore=shutil.ignore_patterns("__pycache__"))
+        for stage, extra in (("fresh", {}), ("used", {"VERIF_IMAGE_STAGE": "used", "PYTHONOPTIMIZE": "1", "PYTHONHASHSEED": "5"}),
+                             ("vendored", {"VERIF_PKG_NAME": "bundled_libs.lsprotocol", "PYTHONPATH": vend + os.pathsep + pkg_path + os.pathsep + common.VERIF})):
             ip = os.path.join(work, "image-%s.json" % stage)
             env = dict(os.environ, PYTHONPATH=pkg_path + os.pathsep + common.VERIF, PYTHONHASHSEED="0")
             env.update(extra)
@@ -54,7 +61,7 @@ def run(model=None, pkg_path=None):
                 res = {"fails": fails, "obligations": obl[0], "summary": summary, "sample": sample, "stages": ["fresh"]}
             else:
                 known = {(f["c"], f["pos"]) for f in res["fails"]}
-                res["fails"] += [dict(f, pos=f["pos"] + "|after use") for f in fails if (f["c"], f["pos"]) not in known]
+                res["fails"] += [dict(f, pos=f["pos"] + ("|after use" if stage == "used" else "|vendored copy")) for f in fails if (f["c"], f["pos"]) not in known]
                 res["stages"].append(stage)
     finally:
         shutil.rmtree(work, ignore_errors=True)
